@@ -16,6 +16,7 @@ import CelerVerif.Lemmas.CalcCont
 import CelerVerif.Lemmas.CalcMono
 import CelerVerif.Lemmas.CalcMsc
 import CelerVerif.Lemmas.CalcBuild
+import CelerVerif.Lemmas.CalcFloat
 
 namespace CelerVerif.Calc
 open CelerVerif
@@ -525,5 +526,54 @@ theorem msc_roundtrip_exact (log1p : ℝ → ℝ) (hl : ∀ x, log1p x = Real.lo
 
 example : ∃ log1p : ℝ → ℝ, ∀ x, log1p x = Real.log (1 + x) :=
   ⟨fun x => Real.log (1 + x), fun _ => rfl⟩
+
+/-! ## The interpolation formula in floating point
+
+`xs_between_neighbours`, `generic_between_neighbours`, `xs_pos` are exact at ℝ.  In binary64
+the formula as written (`slope = (yr − yl)/(xr − xl)`, `fma(slope, x − xl, yl)`) is only within
+`C·u·max|y|` of that interpolant, which is far more than an ulp of the SMALLER knot when the
+two knot values of a bin differ by many orders of magnitude: the Float result can then leave
+the interval of the two knots, and even be negative (known findings
+`interp-cancellation-beyond-neighbour[:negative]`, `interp-bin-edge-extrapolation[:negative]`;
+tools/checks/c14.py compares every sampled value of the real code with the exact rational
+interpolant of the chosen bin and holds it to `8·eps·max|y|`).  `B64` is the bit-level binary64
+model of Model/CalcBits.lean (kernel-evaluable, checked against the hardware on every run). -/
+
+/-- kernel-checked binary64 witness (corpus/C14/interp_cancellation_generic.ops): with
+    `xl < x < xr` and `yr < yl` the real `LinearInterpolator` returns a value strictly BELOW the
+    smaller knot value `yr` -/
+theorem interp_float_undershoots :
+    Num.lt witXl witX = true ∧ Num.lt witX witXr = true ∧ Num.lt witYr witYl = true ∧
+      Num.lt (lerp witXl witYl witXr witYr witX) witYr = true :=
+  lerp_float_undershoots
+
+/-- kernel-checked binary64 witness (corpus/C14/interp_negative_xs.ops): evaluated two ulp left
+    of its bin — where the rounded log-space bin search of `XsCalculator` puts this energy —
+    the interpolator returns a NEGATIVE value from two positive knot values -/
+theorem interp_float_negative :
+    Num.lt (Num.ofNat 0) negYl = true ∧ Num.lt negYl negYr = true ∧
+      (lerp negXl negYl negXr negYr negX).bits = 0xbc863769c4281a67 ∧
+      Num.lt (lerp negXl negYl negXr negYr negX) (Num.ofNat 0) = true :=
+  lerp_float_negative
+
+/-- ★ what IS true in floating point — the standard model (`fl(a ∘ b) = (a ∘ b)(1 + δ)`,
+    `|δ| ≤ u`, one rounding for `std::fma`; binary64: `u = 2⁻⁵³`, absent under/overflow): for a
+    point inside the bin and knot values in `[0, M]` the value computed by
+    `a = fl(yr − yl), b = fl(xr − xl), s = fl(a/b), d = fl(x − xl), r = fl(s·d + yl)`
+    is within `8·u·M` of the exact interpolant.  (The rounding facts `δᵢ` themselves are the
+    IEEE-754 hypotheses; they are not derived from the bit-level model.) -/
+theorem interp_error_bound_standard_model (xl yl xr yr x M u d1 d2 d3 d4 d5 : ℝ) (hu0 : 0 ≤ u)
+    (hu : u ≤ 1 / 16) (h1 : |d1| ≤ u) (h2 : |d2| ≤ u) (h3 : |d3| ≤ u) (h4 : |d4| ≤ u)
+    (h5 : |d5| ≤ u) (hlt : xl < xr) (hx1 : xl ≤ x) (hx2 : x ≤ xr) (hyl0 : 0 ≤ yl) (hyl : yl ≤ M)
+    (hyr0 : 0 ≤ yr) (hyr : yr ≤ M) :
+    |((yr - yl) * (1 + d1) / ((xr - xl) * (1 + d2)) * (1 + d3) * ((x - xl) * (1 + d4)) + yl)
+        * (1 + d5) - lerp xl yl xr yr x| ≤ 8 * u * M :=
+  interp_error_bound xl yl xr yr x M u d1 d2 d3 d4 d5 hu0 hu h1 h2 h3 h4 h5 hlt hx1 hx2 hyl0 hyl
+    hyr0 hyr
+
+example : (0 : ℝ) ≤ 2⁻¹ ^ 53 ∧ (2⁻¹ : ℝ) ^ 53 ≤ 1 / 16 := by
+  constructor
+  · positivity
+  · norm_num
 
 end CelerVerif.Calc
